@@ -169,6 +169,7 @@ func (fr *Frame) callCommon(st *State, g string, site ssa.Instruction, c *ssa.Ca
 	// dynamic call through a function value
 	key := fr.funcValueKey(c.Value)
 	if key != "" {
+		fr.callSiteAsserts(st, g, key, false, args, nil, pos)
 		if fc := eng.lookupExtern(key, "callback"); fc != nil {
 			return fr.applyAssumed(st, g, fc, key, args, sigParamTypes(sig), sig, pos, site)
 		}
